@@ -51,6 +51,7 @@ class FnContract:
         self.file, self.container, self.name = file, container, name
         self.ret = "r"
         self.requires, self.ensures = [], []
+        self.findings = []
         self.fn_decreases = None
         self.loops = {}      # n -> {"invariants": [Clause], "decreases": str, "iter": str}
         self.closures = {}   # n -> header text
@@ -174,11 +175,16 @@ def parse_spec(path):
         elif name == "ensures":
             labels, t = split_labels(text, where)
             fn.ensures.append(Clause("ensures", labels, t, where))
+        elif name == "finding":
+            labels, t = split_labels(text, where)
+            fn.findings.append(Clause("finding", labels, t, where))
         elif name == "fn-decreases":
             fn.fn_decreases = text
         elif name == "loop":
             loop = int(arg.strip())
-            fn.loops.setdefault(loop, {"invariants": [], "decreases": None, "iter": None})
+            fn.loops.setdefault(loop, {"invariants": [], "decreases": None, "iter": None, "end_proof": None})
+        elif name == "loop-end":
+            fn.loops[loop]["end_proof"] = btext
         elif name == "iter":
             fn.loops[loop]["iter"] = arg.strip()
         elif name == "invariant":
